@@ -79,11 +79,20 @@ class Event:
                                               '.'.join(map(str, self.path)))
 
 
+def box_internal(e):
+    """the Unique/NonNull/pointer fields that an elaborated Box deref goes through"""
+    if not isinstance(e, dict) or 'f' not in e:
+        return False
+    ty = e.get('ty') or ''
+    return ty.startswith('std::ptr::Unique<') or ty.startswith('std::ptr::NonNull<') or \
+        (e.get('name') == 'pointer' and ty.startswith('*const '))
+
+
 def proj_path(proj):
     """field path of a projection list (derefs dropped, index -> '[]')"""
     out = []
     for e in proj:
-        if e == 'deref':
+        if e == 'deref' or box_internal(e):
             continue
         if 'f' in e:
             out.append(e['name'] if e.get('name') is not None else str(e['f']))
@@ -425,7 +434,7 @@ class Fn:
         proj = pl['p']
         # split the projection at the first deref: the prefix is a sub-place of the local itself
         k = 0
-        while k < len(proj) and proj[k] != 'deref':
+        while k < len(proj) and proj[k] != 'deref' and not box_internal(proj[k]):
             k += 1
         qpath = proj_path(proj[:k])
         base = self.local_terms(pl['l'], point, qpath, mut_kills)
@@ -436,7 +445,7 @@ class Fn:
         i = 0
         while i < len(proj):
             e = proj[i]
-            if e == 'deref':
+            if e == 'deref' or box_internal(e):
                 pass
             elif 'f' in e:
                 name = e['name'] if e.get('name') is not None else str(e['f'])
@@ -540,7 +549,7 @@ class Fn:
             elif not evs:
                 out.add(('unknown', 'uninit _%d' % local))
         for e in evs:
-            t = self.event_terms(e)
+            t = self.event_terms(e, mut_kills)
             # event wrote path e.path (prefix of qpath since whole_only): project the remainder
             rest = qpath[len(e.path):]
             out |= self._apply_tokens(t, rest)
@@ -548,8 +557,8 @@ class Fn:
         self._memo[key] = res
         return res
 
-    def event_terms(self, e):
-        key = ('ev', e.id)
+    def event_terms(self, e, mut_kills=True):
+        key = ('ev', e.id, mut_kills)
         if key in self._memo:
             v = self._memo[key]
             if v is None:
@@ -562,7 +571,7 @@ class Fn:
             if st['k'] == 'setdiscr':
                 res = T(('unknown', 'setdiscr'))
             else:
-                res = self.rvalue_terms(st['rv'], point)
+                res = self.rvalue_terms(st['rv'], point, mut_kills)
         elif e.kind == 'call':
             res = self.call_terms(e.data, e.block)
         elif e.kind == 'out':
@@ -607,14 +616,14 @@ class Fn:
             return T(('index', args[0], args[1]))
         return T(('call', path, args, site))
 
-    def rvalue_terms(self, rv, point):
+    def rvalue_terms(self, rv, point, mut_kills=True):
         k = rv['k']
         if k == 'use':
-            return self.op_terms(rv['op'], point)
+            return self.op_terms(rv['op'], point, mut_kills)
         if k in ('ref', 'rawptr'):
-            return self.place_terms(rv['place'], point, mut_kills=not rv['mut'])
+            return self.place_terms(rv['place'], point, mut_kills=(mut_kills and not rv['mut']))
         if k == 'cast':
-            a = self.op_terms(rv['op'], point)
+            a = self.op_terms(rv['op'], point, mut_kills)
             c = rv['cast']
             if 'Unsize' in c or 'PtrToPtr' in c or 'Transmute' in c or 'ReifyFnPointer' in c \
                     or 'ClosureFnPointer' in c or 'MutToConstPointer' in c:
@@ -627,7 +636,7 @@ class Fn:
         if k == 'discr':
             return T(('discr', self.place_terms(rv['place'], point)))
         if k == 'agg':
-            fs = tuple(self.op_terms(f, point) for f in rv['fields'])
+            fs = tuple(self.op_terms(f, point, mut_kills) for f in rv['fields'])
             if rv['agg'] == 'adt':
                 names = rv.get('field_names', [])
                 if 'active' in rv:
@@ -769,6 +778,24 @@ class Fn:
             fe.add((b, f_t))
             sb.append(b)
         return te, fe, sb
+
+    def discr_edges(self, pred):
+        """for every switch on discriminant(X) with pred(X terms): {variant value (str): set of edges};
+        key 'otherwise' collects the default edge"""
+        out = {}
+        for b in range(self.nb):
+            if self.blocks[b]['cleanup']:
+                continue
+            si = self.switch_info(b)
+            if si is None:
+                continue
+            terms, tmap, other = si
+            if not terms or not all(n[0] == 'discr' and pred(n[1]) for n in terms):
+                continue
+            for v, tg in tmap.items():
+                out.setdefault(v, set()).add((b, tg))
+            out.setdefault('otherwise', set()).add((b, other))
+        return out
 
     def dominated_by_edges(self, target, edges, start=0):
         """True iff every path from start to `target` uses one of `edges`"""
